@@ -10,15 +10,137 @@ EXPLANATION = (
     "&g.edge_to_word) for a table of coset_tables(g.nr_generators(), &g.relators, max_deg); inside derived::cover the closure handed to "
     "build_set reads the base's op and calls the sheet map, the closure handed to build_sym_using_ms reads the base's m, and the size is "
     "nr_sheets * size() with the base's dim(). (2) oriented cover: the true edge of ds.is_oriented() returns as_partial_dsym(ds) (one sheet), "
-    "the false edge returns cover(ds, 2, ..) with the sheet-count constant 2 and a sheet map built from partial_orientation(ds). NOT decided: "
-    "that the projection commutes with the operations, equal fibre sizes, connectedness, triviality of the universal cover's group, one cover "
-    "per conjugacy class (the commutation is an algebraic shape `sz * sheet + di` that is not armed; the counts are group theory).")
+    "the false edge returns cover(ds, 2, ..) with the sheet-count constant 2 and a sheet map built from partial_orientation(ds). (3) cover algebra: the "
+    "closures of derived::cover are evaluated on every d = sheet*size + base chamber for small sizes: base chamber and sheet are recovered "
+    "exactly, the sheet map is asked about (sheet, i, base chamber), the image is size * (sheet map value) + op(i, base chamber), degrees are "
+    "read at the base chamber - so the projection commutes with all operations, preserves all degrees and every fibre has nr_sheets chambers, "
+    "PROVIDED the sheet map returns values below nr_sheets and is consistent with the base's involutions (the callers' part, decided for the "
+    "coset-table sheet maps under C11/C12). NOT decided: connectedness, triviality of the universal cover's group, one cover per conjugacy "
+    "class (group theory).")
 TRUSTED = ["rustc MIR lowering", "C11/C12 (coset tables), C09 (fundamental group) - decided separately, clause-wise"]
 ASSUMPTIONS = ["connected complete base symbol"]
 
 
+def cover_algebra(ctx, g):
+    """derived::cover numbers the chamber d0 of the base on sheet k as d = k*sz + d0 and defines op(i, d) = sz * sheet_map(k, i, d0) + op(i, d0),
+    m(i, i+1, d) = m(i, i+1, d0).  Decided by evaluating the closures' result expressions on all d = k*sz + d0 for sz in {3, 5}, k < 3:
+    the base chamber and the sheet are recovered exactly, the sheet map is asked about (k, i, d0), and the image lies on the sheet the map
+    returns, over the base's image - so the projection d -> d0 commutes with every operation and preserves every degree, and every fibre
+    has nr_sheets chambers."""
+    ctx.clauses.append("cover algebra: d = sheet*size + base chamber; op(i, d) = size * sheet_map(sheet, i, base) + op(i, base); degrees read at the base chamber (T4, closures evaluated on all small d)")
+    cv = ctx.body("derived::cover")
+    ctx.scan(ctx.facts.with_closures(cv.name))
+    F = ctx.facts
+    src_b = F.bodies.get("derived::cover::{closure#0}")
+    op_b = F.bodies.get("derived::cover::{closure#1}")
+    in_b = F.bodies.get("derived::cover::{closure#1}::{closure#0}")
+    m_b = F.bodies.get("derived::cover::{closure#2}")
+    if None in (src_b, op_b, in_b, m_b):
+        raise AnchorMissing("derived::cover closures")
+    cap = lambda k: ("field", ("param", 1, ""), str(k))
+    P = lambda b, k: ("param", k, b.debug.get(k, ""))
+    src_r = norm(src_b.local_origin(0), g)
+    in_r = norm(in_b.local_origin(0), g)
+    m_r = norm(m_b.local_origin(0), g)
+    op_r = norm(op_b.local_origin(0), g)
+    # roles of the captured variables of the inner closure, from the aggregate that builds it inside closure#1
+    inner_caps = None
+    for x in subterms(op_r):
+        cp = closure_parts(x)
+        if cp and cp[0] == in_b.name:
+            inner_caps = [strip(c) for c in cp[1]]
+    outer_caps = None
+    for bi, si, s in cv.assigns():
+        rv = s["rv"]
+        if rv["k"] == "aggregate" and rv.get("def") == op_b.name:
+            outer_caps = [strip(norm(cv.origin(o), g)) for o in rv["ops"]]
+    if inner_caps is None or outer_caps is None:
+        ctx.ob("T4-cover-algebra", cv.name, "closures", "violation", "the closures of cover() are not built as expected")
+        return
+    ds, sheet_map = P(cv, 1), P(cv, 3)
+    size_t = ("call", "dsets::DSet::size", (ds,))
+
+    def role(t, depth=0):
+        """what a captured value of the inner closure stands for"""
+        t = strip(t)
+        if t[0] == "field" and t[1] == ("param", 1, "") and depth == 0:
+            return role(outer_caps[int(t[2])], 1) if int(t[2]) < len(outer_caps) else None
+        if t == size_t:
+            return "sz"
+        if t == sheet_map:
+            return "sheet_map"
+        if t == ds:
+            return "ds"
+        cp = closure_parts(t)
+        if cp and cp[0] == src_b.name:
+            return "src"
+        if t[0] == "param" and depth == 0:
+            return {2: "i", 3: "d"}.get(t[1])
+        return None
+    roles = {cap(k): role(c) for k, c in enumerate(inner_caps)}
+    need = {"sz", "sheet_map", "src", "i", "d"}
+    if set(roles.values()) & need != need:
+        ctx.ob("T4-cover-algebra", cv.name, "captures", "violation", "the image closure does not capture size, sheet map, base-chamber function, i and d: %s" % sorted(str(v) for v in roles.values()))
+        return
+    by_role = {v: k for k, v in roles.items()}
+    bad = None
+    n = 0
+    for sz in (3, 5):
+        srcf = lambda x, sz=sz: eval_term_env(src_r, {cap(0): sz, P(src_b, 2): x})
+        for k in range(3):
+            for d0 in range(1, sz + 1):
+                d = k * sz + d0
+                if srcf(d) != d0:
+                    bad = bad or "the base chamber of d = %d (size %d) is computed as %s, not %d" % (d, sz, srcf(d), d0)
+                    continue
+                mt = subst_env(m_r, {P(m_b, 3): d, ("call", "dsets::DSet::size", (cap(0),)): sz})
+                margs = [eval_int(a) for a in mt[2][1:]] if is_call(mt, "DSet::m") else None
+                for i in range(3):
+                    mi = [eval_term_env(a, {P(m_b, 2): i}) for a in mt[2][1:]] if is_call(mt, "DSet::m") else None
+                    if mi != [i, i + 1, d0]:
+                        bad = bad or "the degree of the cover at (i, d) = (%d, %d) is read at %s, not at m(%d, %d, %d) of the base" % (i, d, mi, i, i + 1, d0)
+                    for s_val in (0, 2):
+                        for di in (1, sz):
+                            asked = []
+
+                            def f(x):
+                                if is_call(x, "Fn::call") and strip(x[2][0]) in by_role.values() or (is_call(x, "Fn::call") and strip(x[2][0]) in (by_role.get("src"), by_role.get("sheet_map"))):
+                                    callee = strip(x[2][0])
+                                    args = strip(x[2][1])
+                                    vals = [eval_int(a) for a in args[2]] if args[0] == "agg" else None
+                                    if vals is None or any(v is None for v in vals):
+                                        return None
+                                    if callee == by_role["src"]:
+                                        return ("int", srcf(vals[0]))
+                                    if callee == by_role["sheet_map"]:
+                                        asked.append(tuple(vals))
+                                        return ("int", s_val)
+                                return None
+                            t = subst_env(in_r, {by_role["sz"]: sz, by_role["d"]: d, by_role["i"]: i, P(in_b, 2): di})
+                            for _ in range(4):
+                                t = map_term(t, f)
+                            v = eval_int(t)
+                            n += 1
+                            if v is None:
+                                bad = bad or "the image expression cannot be evaluated: " + show(t, 1)[:80]
+                            elif asked and asked[-1] != (k, i, d0):
+                                bad = bad or "for d = %d (sheet %d, base chamber %d) and i = %d the sheet map is asked about %s, not (%d, %d, %d)" % (d, k, d0, i, asked[-1], k, i, d0)
+                            elif v != sz * s_val + di:
+                                bad = bad or "for size %d, sheet map value %d and base image %d the image is %d, not %d * %d + %d: the projection no longer commutes with op %d" % (sz, s_val, di, v, sz, s_val, di, i)
+    ctx.ob("T4-cover-algebra", cv.name, "op(i, d) = sz * sheet_map(k, i, d0) + op(i, d0)", "ok" if not bad and n else "violation",
+           "base chamber, sheet, sheet-map arguments, image and degree lookup are exact on %d evaluated cases" % n if not bad and n else (bad or "nothing evaluated"))
+    # the base operation is looked up at the base chamber, and the set has nr_sheets * size chambers of the base's dimension
+    okop = is_call(op_r, "Option::<T>::map") and is_call(strip(op_r[2][0]), "DSet::op")
+    if okop:
+        o = strip(op_r[2][0])
+        okop = role(o[2][0]) == "ds" and strip(o[2][1]) == P(op_b, 2) and is_call(strip(o[2][2]), "Fn::call") and role(strip(o[2][2])[2][0]) == "src" and strip(strip(strip(o[2][2])[2][1])[2][0]) == P(op_b, 3)
+    ctx.ob("T4-cover-algebra", cv.name, "base image = ds.op(i, base chamber of d)", "ok" if okop else "violation",
+           "the base's operation is applied to the base chamber of d" if okop else "the image is not derived from ds.op(i, src(d)): " + show(op_r, 1)[:90])
+
+
 def run(ctx):
     g = ctx.facts.getters()
+    cover_algebra(ctx, g)
     ctx.clauses += ["each cover is assembled from the base's operations and degrees (T9/T2)", "oriented cover: one sheet if oriented, two otherwise (T3/T4)"]
     cft = ctx.body("covers::cover_for_table")
     sc = ctx.body("covers::subgroup_cover")
